@@ -117,14 +117,14 @@ def pm_refinement_check(tier, wd, out):
     for variant, inv in (("pairing-without-index", "KeysInjective"), ("root-inside-if", "Consistent"), ("recalc-left-only", "Consistent"),
                          ("kf-override", "Consistent")):
         res = tlc_mc("TreePm", cfg(f"MC_TreePm_{variant}", variant, 2, [0, 1], 2), f"mc-treepm-{out.prop}-neg", workers=2, timeout=900, coverage=False)
-        if not re.search(rf"Invariant ({inv}|MarkOK) is violated|The invariant of {inv} is equal to FALSE", res["out"]):
+        if not re.search(rf"Invariant ({inv}|MarkOK|BatchWriteSetOK|ProofOK) is violated|The invariant of {inv} is equal to FALSE", res["out"]):
             raise ToolError(f"TreePm.tla: the faulty variant '{variant}' was not refuted (vacuous refinement check):\n" + res["out"][-1500:])
     out.notes.append("TreePm.tla: the faulty variants (colliding keys, root field assigned only when the batch grows the tree, batch re-hash trusting the "
                      "stored right child) and the adapter's batch-with-removals path (known finding pm-override-batch) are refuted by TLC")
     # ---- the real store against the model
     binary, _ = build_harness("default")
     plan = [(2, 60, 25), (3, 40, 30), (5, 12, 40)] if quick else [(2, 300, 30), (3, 200, 40), (5, 60, 60), (7, 10, 80)]
-    lines = 0
+    lines = layout = 0
     for d, count, ln in plan:
         tp = os.path.join(wd, f"pmnodes-d{d}.ndjson")
         tb = os.path.join(wd, f"pmnodes-d{d}.table.json")
@@ -139,7 +139,7 @@ def pm_refinement_check(tier, wd, out):
             at = res["reject_at"] if res["reject_at"] is not None else (res["depth"] or 1)
             ev = rows[min(at, len(rows)) - 1]
             what = (f"invariant {viol.group(1)} of TreePm.tla fails in the state reached" if viol else
-                    "no action of TreePm.tla produces the logged result / next_index / root / store content")
+                    "no action of TreePm.tla produces the logged result / leaf count / root / values read at the node positions")
             out.violation(f"persistent backend, node level (depth {d}, seed {seed()}): line {at} {json.dumps(ev)[:300]}: {what}",
                           {"kind": "pmnodes", "depth": d, "count": count, "len": ln, "line": at, "event": ev})
             continue
@@ -148,20 +148,22 @@ def pm_refinement_check(tier, wd, out):
         if res["depth"] - 1 != len(rows):
             raise ToolError(f"pmnodes judge consumed {res['depth'] - 1} of {len(rows)} lines")
         lines += len(rows)
+        layout += len(re.findall(r'<<\s*"LAYOUT",\s*\d+\s*>>', res["out"]))
         if d == 2:
-            # negative control: one stored node dropped from one logged line -> rejected exactly there
+            # negative control: one value read at a node position altered in one logged line -> rejected exactly there
             k = next(i for i, r in enumerate(rows) if r["op"] == "range" and r["res"] == "ok")
-            neg = [dict(r) for r in rows[:k + 1]]
-            neg[k]["nodes"] = neg[k]["nodes"][:-1]
+            neg = [json.loads(json.dumps(r)) for r in rows[:k + 1]]
+            neg[k]["reads"][1][0] = neg[k]["reads"][1][0] + 1
             np_ = os.path.join(wd, "pmnodes-neg.ndjson")
             write_ndjson(np_, neg)
             r2 = tlc_judge("Trace_TreePm", c, {"TRACE": np_, "TABLE": tb}, f"judge-pmnodes-{out.prop}-neg", timeout=600)
             if r2["reject_at"] != k + 1:
                 raise ToolError(f"negative control: the node-level judge did not reject the altered line {k + 1} (reject_at={r2['reject_at']})")
-    out.add(pm_store_lines_validated=lines, pm_store_depths=[p[0] for p in plan])
+    out.add(pm_store_lines_validated=lines, pm_store_depths=[p[0] for p in plan], pm_store_layout_differences=layout)
     out.notes.append(f"Trace_TreePm.tla: {lines} calls on the real pmtree::MerkleTree<SledDB, Poseidon> (depths {[p[0] for p in plan]}, with reloads) accepted: "
-                     "after every call the content of the store (which node keys hold a value, and which), next_index in memory and in the store and the "
-                     "root field are those of the model; negative control rejected")
+                     "after every call the result, the leaf count, the root field and the value read at every node position are those of the model "
+                     f"(verdict); the content of the store itself - which node keys hold a value, the raw next_index entry - equals the model's in all but {layout} "
+                     "lines (information only: the property does not constrain the layout); storage configurations in rotation; negative control rejected")
     return states
 
 
